@@ -309,11 +309,17 @@ retry:
                                      r_key.size() < full_key.size()
                                              ? r_key.size()
                                              : full_key.size());
-                if (ret_cmp < 0) { return status::OK_SCAN_END; }
-                if (ret_cmp == 0) {
-                    if (r_key.size() <= full_key.size()) {
-                        return status::OK_SCAN_END;
+                if (ret_cmp < 0 ||
+                    (ret_cmp == 0 && r_key.size() <= full_key.size())) {
+                    // the scan ends at this link: the border must still be
+                    // recorded, it may have contributed links only
+                    if (!tuple_pushed_num && node_version_vec != nullptr) {
+                        node_version_vec->emplace_back(
+                                std::make_pair(v_at_fb, bn->get_version_ptr()));
                     }
+                    return status::OK_SCAN_END;
+                }
+                if (ret_cmp == 0) {
                     arg_r_key = r_key;
                     arg_r_end = r_end;
                 } else {
@@ -330,6 +336,10 @@ retry:
                 goto retry; // NOLINT
             }
             if (max_size != 0 && tuple_list.size() >= max_size) {
+                if (!tuple_pushed_num && node_version_vec != nullptr) {
+                    node_version_vec->emplace_back(
+                            std::make_pair(v_at_fb, bn->get_version_ptr()));
+                }
                 return status::OK_SCAN_END;
             }
         } else {
